@@ -227,13 +227,15 @@ pub fn run_lw(cfg: &LwCfg, si: &ScriptInfo, env: &LwEnv, ch: &mut Chooser, mut i
     let mut blackout: Option<(usize, u8, usize)> = None;
     if !env.blackouts.is_empty() {
         let n = env.blackouts.len() * env.dev_rounds;
-        let c = ch.choose(n + 1);
+        // a choice point answers in a byte: beyond 255 alternatives the choice is taken in two steps (which blackout, then a free choice of its first round)
+        let c = if n + 1 <= 255 { ch.choose(n + 1) } else { let b = ch.choose(env.blackouts.len() + 1); if b == 0 { 0 } else { 1 + ch.free(env.dev_rounds) * env.blackouts.len() + (b - 1) } };
         if c > 0 { let k = c - 1; let (mask, len) = env.blackouts[k % env.blackouts.len()]; blackout = Some((env.dev_start + k / env.blackouts.len(), mask, len)); }
     }
     tr.blackout = blackout;
     let mut shift: Option<(usize, Shift)> = None;
     if !env.shifts.is_empty() {
-        let c = ch.choose(env.shifts.len() * env.dev_rounds + 1);
+        let n = env.shifts.len() * env.dev_rounds;
+        let c = if n + 1 <= 255 { ch.choose(n + 1) } else { let b = ch.choose(env.shifts.len() + 1); if b == 0 { 0 } else { 1 + ch.free(env.dev_rounds) * env.shifts.len() + (b - 1) } };
         if c > 0 { let k = c - 1; shift = Some((env.dev_start + k / env.shifts.len(), env.shifts[k % env.shifts.len()])); }
     }
     tr.shift = shift;
